@@ -176,6 +176,8 @@ CallFn(name, args, s, ctx) ==
         IF kind[1] = "log" THEN [v |-> V, s |-> s1]
         ELSE IF kind[1] = "same" THEN [v |-> IF Len(args) > 0 THEN args[1] ELSE N, s |-> s1]
         ELSE IF kind[1] = "pack" THEN [v |-> A(args), s |-> s1]
+        \* "count": the number of calls of this function so far in the run, this one included
+        ELSE IF kind[1] = "count" THEN [v |-> I(Cardinality({i \in 1..Len(s1.calls) : s1.calls[i][1] = name})), s |-> s1]
         ELSE [v |-> kind[2], s |-> s1])
   ELSE IF name \in DOMAIN ctx.funcs THEN
        (LET f == ctx.funcs[name] params == f[1] body == f[2] IN
